@@ -63,20 +63,24 @@ static void run_case(int d, uint64_t idx) {
     vf::Radix Rq{3, 2, 3, 2, (uint64_t)d}; auto q = Rq.decode(idx);
     static const uint64_t OQ[3] = {0, 2, 5}, NQ[3] = {0, 2, 4};
     v = {OQ[q[0]], q[1], NQ[q[2]], q[3], 2, q[4]};
-  } else { vf::Radix R{6, 3, 5, 5, 3, (uint64_t)d}; v = R.decode(idx); }
-  uint32_t order = v[0]; static const int KP[3] = {tg::K_UNIFORM, tg::K_IRREGULAR, tg::K_UNIFORM}; /* strictly increasing knots in the convolved dimension: the divided differences are not defined for repeated knots */ int kp = KP[v[1]]; int nk = 2 + v[2]; int kk = v[3]; int ck = v[4]; int dim = v[5];
+  } else { vf::Radix R{6, 5, 5, 5, 3, (uint64_t)d}; v = R.decode(idx); }
+  uint32_t order = v[0]; static const int KP[5] = {tg::K_UNIFORM, tg::K_IRREGULAR, tg::K_UNIFORM, tg::K_IRREGULAR, tg::K_UNIFORM}; /* strictly increasing knots in the convolved dimension: the divided differences are not defined for repeated knots */ int kp = KP[v[1]]; int nk = 2 + v[2]; int kk = v[3]; int ck = v[4]; int dim = v[5];
   tg::TableSpec s;
   for (int i = 0; i < d; i++) { uint32_t o = i == dim ? order : (uint32_t)((i + 1) % 4); s.dims.push_back({o, tg::make_knots(i == dim ? kp : (i % 2 ? tg::K_DOUBLE : tg::K_UNIFORM), o, 2 * o + 2 + 2 + i, 0.5 * i)}); }
   if (v[1] == 2) for (auto& kv : s.dims[dim].knots) kv = 50.0 + 0.37 * kv;
+  // the convolution does not depend on the unit of the axis: the same table with the axis in units 1e-8 (nanoseconds written in
+  // seconds) and 1e6 times larger; the kernel is scaled by the same unit
+  double unit = v[1] == 3 ? 1e-8 : (v[1] == 4 ? 1e6 : 1.0);   // applied to the knots AND to the kernel after the kernel has been chosen
   uint64_t nc = s.ncoeffs();
   if (ck == 0) s.coeffs.assign(nc, 1.f); else if (ck == 1) { s.coeffs.assign(nc, 0.f); s.coeffs[(idx * 7) % nc] = 1.f; } else s.coeffs = tg::make_coeffs(1, nc, H->seed, idx);
   const auto& K0 = s.dims[dim].knots; double gap = 1e300; for (size_t i = 1; i < K0.size(); i++) if (K0[i] > K0[i - 1]) gap = std::min(gap, K0[i] - K0[i - 1]);
   std::vector<double> kern = kernel(kk, nk, gap, K0.back() - K0.front());
+  if (unit != 1.0) { for (auto& kv : s.dims[dim].knots) kv = kv * unit - (v[1] == 4 ? 3e6 : 0.0); for (auto& kv : kern) kv *= unit; }
   double maxgap = 0, kmin = 1e300; for (size_t i = 1; i < K0.size(); i++) maxgap = std::max(maxgap, K0[i] - K0[i - 1]); for (size_t i = 1; i < kern.size(); i++) kmin = std::min(kmin, kern[i] - kern[i - 1]);
-  // iterated divided differences over >= 5 kernel knots whose spacing is >= 100 times finer than the table's knot spacing: its own failure class
-  bool illcond = nk >= 5 && maxgap / kmin >= 100;
+  // iterated divided differences over >= 4 kernel knots whose spacing is >= 100 times finer than the table's knot spacing: its own failure class
+  bool illcond = nk >= 4 && maxgap / kmin >= 100;   // (nk >= 5 until the axis-unit patterns showed the same cancellation, 8e-4 relative, with 4 kernel knots on an order-4 dimension)
   std::string key = vf::fmt("%sorder=%u:kernel-knots=%d", illcond ? "fine-kernel-on-coarse-knots:" : "", order, nk);
-  std::string where = vf::fmt("[d=%d dim=%d order=%u knots=%s kernel=%s/%d coeffs=%d]", d, dim, order, v[1] == 2 ? "uniform*0.37+50" : tg::pattern_name(kp), KN[kk], nk, ck);
+  std::string where = vf::fmt("[d=%d dim=%d order=%u knots=%s kernel=%s/%d coeffs=%d]", d, dim, order, v[1] == 2 ? "uniform*0.37+50" : v[1] == 3 ? "irregular*1e-8" : v[1] == 4 ? "uniform*1e6-3e6" : tg::pattern_name(kp), KN[kk], nk, ck);
   H->hint(where);
   Table t; tg::build(t, s);
   bool viaC = (idx % 5 == 0);
@@ -129,11 +133,11 @@ int main(int argc, char** argv) {
   vf::Harness h("C14", argc, argv);
   H = &h;
   h.meta("level", "exploration");
-  h.meta("rule", "complete walk: d=1..4 x order 0..5 of the convolved dimension x {uniform, irregular, uniform scaled by 0.37 at offset 50} strictly increasing knots (repeated knots only in the other dimensions) x kernels of 2..6 knots x {symmetric, one-sided positive irregular, one-sided negative, narrower than the smallest knot interval, wider than the whole support} x {all ones, unit impulse, seeded} coefficients x every dimension index (C++ and C entry); post-conditions (order += n-1, knots = sorted pairwise sums, other dimensions untouched, well-formed, strides) and the function oracle: the convolved table evaluated at midpoints and 1/7 points of every non-empty interval of the new knot vector (interior and both margins) against the integral of f(x-t) M(t) dt with M the unit-area B-spline on the kernel knots, by 12-point Gauss-Legendre quadrature on every sub-interval between breakpoints in long double; distinct = (order, kernel size, region, dimension count)");
+  h.meta("rule", "complete walk: d=1..4 x order 0..5 of the convolved dimension x {uniform, irregular, uniform scaled by 0.37 at offset 50, irregular in units of 1e-8, uniform in units of 1e6} strictly increasing knots (repeated knots only in the other dimensions) x kernels of 2..6 knots x {symmetric, one-sided positive irregular, one-sided negative, narrower than the smallest knot interval, wider than the whole support} x {all ones, unit impulse, seeded} coefficients x every dimension index (C++ and C entry); post-conditions (order += n-1, knots = sorted pairwise sums, other dimensions untouched, well-formed, strides) and the function oracle: the convolved table evaluated at midpoints and 1/7 points of every non-empty interval of the new knot vector (interior and both margins) against the integral of f(x-t) M(t) dt with M the unit-area B-spline on the kernel knots, by 12-point Gauss-Legendre quadrature on every sub-interval between breakpoints in long double; distinct = (order, kernel size, region, dimension count)");
   h.meta("assumption", "reference: Gauss-Legendre quadrature of the long-double Cox-de Boor reference; tolerance 64 eps_float times the magnitude of the summed terms");
   h.meta("deadline_quick", "900"); h.meta("deadline_thorough", "2400");
   h.timeout_s = 120;
   g_thorough = h.thorough;
-  for (int d = 1; d <= 4; d++) h.add_space(vf::fmt("d%d", d), (d >= 3 && !h.thorough) ? 3ull * 2 * 3 * 2 * d : 6ull * 3 * 5 * 5 * 3 * d, [d](uint64_t i) { run_case(d, i); });
+  for (int d = 1; d <= 4; d++) h.add_space(vf::fmt("d%d", d), (d >= 3 && !h.thorough) ? 3ull * 2 * 3 * 2 * d : 6ull * 5 * 5 * 5 * 3 * d, [d](uint64_t i) { run_case(d, i); });
   return h.main();
 }
